@@ -40,6 +40,8 @@ def solve(constraints, timeout_s=600, seed=None):
     STATS.queries += 1
     STATS.solver_s += dt
     rs = str(r)
+    from vf import smt2dump
+    smt2dump.maybe_dump(constraints, rs, dt, "bmc")
     if rs == "sat":
         STATS.sat += 1
         return "sat", s.model()
